@@ -491,8 +491,8 @@ func pc2a(c *Ctx, r *Report, tx, ks bool) {
 						return cc != nil && callsIfaceMethod(cc, pf.closeM) && a.has(recvOf(cc))
 					})
 					if miss2 || len(exits2) > 0 {
-						best = "a pinned keep-session connection is recycled without Close(): its backend session state would be handed to another client"
-						continue
+						// not demanded by C19/C23 as stated (they require release, not discard): reported as information only
+						r.info(rule, name, cons+":close", c.Pos(st.Pos()), "sibling disagreement: this loop recycles keep-session connections without Close() on some path (handleKsQuit and clearKsConns close them first); backend-held state (temporary tables, locks) goes back to the pool")
 					}
 				}
 				okFound = true
@@ -1261,6 +1261,7 @@ func ruleC23b(c *Ctx, r *Report) {
 	allowed := map[*ssa.Function]string{
 		c.seMethod("getBackendKsConn"):  "pins on a miss",
 		c.seMethod("handleKsQuit"):      "client disconnect",
+		c.seMethod("handleKeepSessionPing"): "ping failure: every pinned connection was just recycled (PC2a/PC2b)",
 		pf.clearKs:                      "namespace changed outside a transaction",
 		c.Func(serverRel, "newSessionExecutor"): "constructor",
 	}
